@@ -193,16 +193,18 @@ def oracle_verdict(exp, obs):
     return obs[0] in ("rejects", "fails")
 
 
-def check_program(pt, proc, cfg, combos, extras=(0, 1, 2), stop_early=False):
-    """Build the router of cfg once, compile it for every (version, optimize) of combos, compare with the model and
-    the oracle over the call matrix. Returns (issues, stats)."""
+def check_program(pt, proc, cfg, combos, extras=(0, 1, 2), stop_early=False, router=None, session=None):
+    """Build the router of cfg once (or take the given one: a router SESSION that has been compiled before with fewer
+    registrations - `session` records those earlier compilations), compile it for every (version, optimize) of combos,
+    compare with the model and the oracle over the call matrix. Returns (issues, stats)."""
     issues = []
     stats = {"avm_runs": 0, "compiles": 0, "runs_handler": 0, "rejected": 0, "struct": 0}
-    rb = call_real(L.build_router, pt, cfg)
-    if rb[0] != "ok":
-        issues.append({"level": "model", "part": "registration of a configuration the model accepts", "cfg": cfg, "real": rb[1:]})
-        return issues, stats
-    router = rb[1]
+    if router is None:
+        rb = call_real(L.build_router, pt, cfg)
+        if rb[0] != "ok":
+            issues.append({"level": "model", "part": "registration of a configuration the model accepts", "cfg": cfg, "real": rb[1:]})
+            return issues, stats
+        router = rb[1]
     sigs = [L.method_sig(m) for m in cfg["methods"]]
     wcfg = L.w_cfg(cfg)
     ok = proc.ask((S("cfgok"), wcfg))
@@ -224,6 +226,8 @@ def check_program(pt, proc, cfg, combos, extras=(0, 1, 2), stop_early=False):
         rc = call_real(lambda: L.compile_router(pt, router, version, opt))
         stats["compiles"] += 1
         base = {"cfg": cfg, "version": version, "opt": opt}
+        if session:
+            base["session"] = [list(x) for x in session]
         if rc[0] != "ok":
             issues.append(dict(base, level="oracle", part="compile_program raises", real=rc[1:], program="approval", args=None))
             continue
@@ -277,6 +281,60 @@ def check_program(pt, proc, cfg, combos, extras=(0, 1, 2), stop_early=False):
         if stop_early and issues:
             break
     return issues, stats
+
+
+def check_session(pt, proc, cfg, stages, extras=(0, 1)):
+    """A Router used over time: stages = [(number of methods registered so far, [(version, opt) ...]) ...], the last
+    stage registering all of them. After every stage each compilation is judged against ALL registrations made so
+    far (oracle + model of that configuration = what a fresh router with the same registrations does)."""
+    issues, tot = [], {}
+    names = [m["name"] for m in cfg["methods"]]
+    rb = call_real(L.build_router, pt, cfg, names[:stages[0][0]])
+    if rb[0] != "ok":
+        return [{"level": "model", "part": "registration of a configuration the model accepts", "cfg": cfg, "real": rb[1:]}], tot
+    router = rb[1]
+    done = stages[0][0]
+    session = []
+    for n, combos in stages:
+        for m in cfg["methods"][done:n]:
+            ra = call_real(L.add_method, pt, router, m)
+            if ra[0] != "ok":
+                return issues + [{"level": "model", "part": "registration after a compilation", "cfg": cfg, "real": ra[1:]}], tot
+        done = max(done, n)
+        stage_cfg = dict(cfg, methods=cfg["methods"][:done])
+        for combo in combos:
+            iss, st = check_program(pt, proc, stage_cfg, [combo], extras, router=router, session=session)
+            issues += iss
+            for k, v in st.items():
+                tot[k] = tot.get(k, 0) + v
+            session = session + [(names[:done], combo[0], combo[1])]
+    return issues, tot
+
+
+def gen_session(rng, thorough=False):
+    cfg = L.gen_cfg(rng, nmeth=rng.choice([2, 2, 3, 4]))
+    n = len(cfg["methods"])
+    cuts = sorted(set(rng.sample(range(0, n), rng.choice([1, 1, 2]) if n > 2 else 1))) + [n]
+    opts = [None, (True, None, False), (None, None, True), (None, True, False), (False, False, False)]
+    stages = []
+    v0 = rng.choice(range(6, 11))
+    for c in cuts:
+        # same version/options as the previous compile (caches keyed by nothing) and a different one
+        combos = [(v0, None)] + ([(rng.choice(range(6, 11)), rng.choice(opts))] if rng.random() < 0.6 else [])
+        combos = [(v, (o if (o is None or v >= 8 or o[1] in (None, False)) else (o[0], None, o[2]))) for v, o in combos]
+        stages.append((c, combos))
+    return cfg, stages
+
+
+def job_session(payload):
+    pt, proc = worker_state()
+    all_issues, tot = [], {}
+    for cfg, stages in payload["items"]:
+        issues, stats = check_session(pt, proc, cfg, stages)
+        all_issues += issues[:40]
+        for k, v in stats.items():
+            tot[k] = tot.get(k, 0) + v
+    return {"n": len(payload["items"]), "issues": all_issues, "stats": tot}
 
 
 def job_prog(payload):
@@ -430,9 +488,29 @@ def registration_checks(ck, pt, proc, thorough):
 # ---------------------------------------------------------------------------------------------
 # search / shrink / replay
 # ---------------------------------------------------------------------------------------------
-def violates(pt, proc, cfg, version, opt, program, args, oc, appid):
-    """Does this single call still contradict the oracle on the real implementation? -> (bool, observed)"""
-    rb = call_real(L.build_router, pt, cfg)
+def violates(pt, proc, cfg, version, opt, program, args, oc, appid, session=None):
+    """Does this single call still contradict the oracle on the real implementation? -> (bool, observed)
+    session: earlier compilations of the same Router [(names of the methods registered by then, version, opt) ...];
+    the remaining methods are registered afterwards and the program of the final compilation is judged."""
+    if session:
+        first = set(session[0][0])
+        rb = call_real(L.build_router, pt, cfg, first)
+        if rb[0] != "ok":
+            return False, ("build", rb[1])
+        have = set(m["name"] for m in cfg["methods"] if m["name"] in first)
+        for names_, v_, o_ in session:
+            for m in cfg["methods"]:
+                if m["name"] in names_ and m["name"] not in have:
+                    if call_real(L.add_method, pt, rb[1], m)[0] != "ok":
+                        return False, ("build", "late registration")
+                    have.add(m["name"])
+            call_real(lambda: L.compile_router(pt, rb[1], v_, o_))
+        for m in cfg["methods"]:
+            if m["name"] not in have:
+                if call_real(L.add_method, pt, rb[1], m)[0] != "ok":
+                    return False, ("build", "late registration")
+    else:
+        rb = call_real(L.build_router, pt, cfg)
     if rb[0] != "ok":
         return False, ("build", rb[1])
     rc = call_real(lambda: L.compile_router(pt, rb[1], version, opt))
@@ -454,13 +532,19 @@ def shrink(pt, proc, issue):
     cfg, version, opt = issue["cfg"], issue["version"], issue["opt"]
     program, oc, appid = issue["program"], issue["oc"], issue["appid"]
     desc = dict(issue.get("desc") or {"first": ("raw:" + issue["args"][0]) if issue["args"] else "none", "extras": max(0, len(issue["args"]) - 1)})
+    session = [list(x) for x in issue.get("session") or []]
 
-    def test(c, d, o):
+    def test(c, d, o, sess=None):
         a = L.materialize(c, d)
         if a is None:
             return False, None
-        return violates(pt, proc, c, version, o, program, a, oc, appid)
+        return violates(pt, proc, c, version, o, program, a, oc, appid, session=session if sess is None else sess)
     bad, info = test(cfg, desc, opt)
+    if bad and session:
+        # does it need the session at all?
+        b0, i0 = test(cfg, desc, opt, sess=[])
+        if b0:
+            session, info = [], i0
     if not bad:
         return None
     progress = True
@@ -485,16 +569,34 @@ def shrink(pt, proc, issue):
             b2, i2 = test(cfg, desc, None)
             if b2:
                 opt, info, progress = None, i2, True
+        if not progress and len(session) > 1:
+            for k in range(len(session)):
+                s2 = session[:k] + session[k + 1:]
+                b2, i2 = test(cfg, desc, opt, sess=s2)
+                if b2:
+                    session, info, progress = s2, i2, True
+                    break
+        if not progress:
+            for k, (nm, v_, o_) in enumerate(session):
+                if o_ is not None:
+                    s2 = session[:k] + [[nm, v_, None]] + session[k + 1:]
+                    b2, i2 = test(cfg, desc, opt, sess=s2)
+                    if b2:
+                        session, info, progress = s2, i2, True
+                        break
     obs, exp, teal = info
     args = L.materialize(cfg, desc)
     return {"kind": "dispatch", "cfg": cfg, "version": version, "opt": opt, "program": program, "args": [a.hex() for a in args],
-            "call": desc, "oc": oc, "appid": appid, "expected_handler": exp, "observed": list(obs), "teal": teal.split("\n")}
+            "call": desc, "oc": oc, "appid": appid, "expected_handler": exp, "observed": list(obs), "teal": teal.split("\n"),
+            "session": [[[n for n in nm if any(m["name"] == n for m in cfg["methods"])], v_, o_] for nm, v_, o_ in session]}
 
 
 def describe(rep):
     exp = rep["expected_handler"]
     o = rep.get("opt")
     opts = "" if o is None else " (scratch_slots=%s, frame_pointers=%s, assemble_constants=%s)" % (o[0], o[1], L.asm_of(o))
+    if rep.get("session"):
+        opts += " of a Router compiled before (%s) and extended since" % "; ".join("v%s with methods %s" % (v_, nm) for nm, v_, o_ in rep["session"])
     return "%s program at v%d%s: call args=%s OnCompletion=%d ApplicationID=%d %s but observed %s" % (
         rep["program"], rep["version"], opts, rep["args"], rep["oc"], rep["appid"],
         ("must run handler %s only" % L.handler_tag(exp)) if exp is not None else "must be rejected", rep["observed"])
@@ -587,7 +689,7 @@ def replay(path, ck, pt):
         return 1
     proc = L.Proc()
     bad, info = violates(pt, proc, data["cfg"], data["version"], data.get("opt"), data["program"],
-                         [bytes.fromhex(a) for a in data["args"]], data["oc"], data["appid"])
+                         [bytes.fromhex(a) for a in data["args"]], data["oc"], data["appid"], session=data.get("session"))
     proc.close()
     print("configuration:", json.dumps(data["cfg"]))
     print("call: program=%s version=%s args=%s OnCompletion=%s ApplicationID=%s" % (data["program"], data["version"], data["args"], data["oc"], data["appid"]))
@@ -633,7 +735,7 @@ def main(argv):
     acond_jobs = [{"tuples": tuples[i::48]} for i in range(48)]
     tables = []
     for k, combo in enumerate(itertools.product(L.CCS, repeat=5)):
-        tables.append((k, {oc: [L.BARE_KINDS[(k + j) % 4], cc] for j, (oc, cc) in enumerate(zip(L.OC5, combo)) if cc != "never"}))
+        tables.append((k, {oc: [L.ACTION_KINDS[(k + j) % len(L.ACTION_KINDS)], cc] for j, (oc, cc) in enumerate(zip(L.OC5, combo)) if cc != "never"}))
     bare_jobs = [{"tables": tables[i::32]} for i in range(32)]
 
     corpus = load_corpus()
@@ -678,6 +780,18 @@ def main(argv):
     order = list(range(len(items)))
     random.Random(ck.seed).shuffle(order)
     prog_jobs = [{"items": [items[j] for j in order[i::64]]} for i in range(64)]
+    # router sessions: compile, register more, compile again
+    sessions = []
+    for v in range(6, 11):
+        demo = {"bare": {"no_op": ["exprret", "create"]}, "clear": "exprret", "methods": [
+            {"name": "m0", "hid": 0, "shape": "a2r", "mc": {"no_op": "call"}, "via": "default_decorator"},
+            {"name": "m1", "hid": 1, "shape": "a2r", "mc": {"opt_in": "call"}, "via": "decorator"},
+            {"name": "m2", "hid": 2, "shape": "v0", "mc": {"delete_application": "all", "no_op": "create"}, "via": "add"}]}
+        sessions.append((demo, [(1, [(v, None)]), (2, [(v, None), (6 + (v + 1) % 5, (None, None, True))]), (3, [(v, None)])]))
+        sessions.append(({"bare": {}, "clear": None, "methods": demo["methods"][1:]}, [(0, [(v, None)]), (2, [(v, None)])]))
+    for i in range(160 if thorough else 50):
+        sessions.append(gen_session(rng, thorough))
+    session_jobs = [{"items": sessions[i::32]} for i in range(32)]
 
     # ---------------- run everything over the worker pool ----------------
     t1 = time.time()
@@ -687,9 +801,11 @@ def main(argv):
         ra = pool.map_async(job_acond, acond_jobs, chunksize=1)
         rb = pool.map_async(job_bare, bare_jobs, chunksize=1)
         rp = pool.map_async(job_prog, prog_jobs, chunksize=1)
+        rs_ = pool.map_async(job_session, session_jobs, chunksize=1)
         pt_, proc = worker_state()
         reg_issues = registration_checks(ck, pt, proc, thorough)
         acond_res, bare_res, prog_res = ra.get(3000), rb.get(3000), rp.get(3000)
+        sess_res = rs_.get(3000)
     timing["correspondence_s"] = round(time.time() - t1, 1)
 
     issues = list(reg_issues)
@@ -707,6 +823,15 @@ def main(argv):
     for k, t in tables:
         ck.count(("bare", k), nontrivial=bool(t))
     stats = {}
+    sess_stats = {}
+    for r in sess_res:
+        issues += r["issues"]
+        for k, v in r["stats"].items():
+            sess_stats[k] = sess_stats.get(k, 0) + v
+    for cfg_, stages_ in sessions:
+        ck.count(("session", json.dumps(cfg_, sort_keys=True), repr(stages_)))
+    ck.evaluations += sess_stats.get("avm_runs", 0)
+    ck.coverage["sessions"] = dict(sess_stats, sessions=len(sessions), stages_hist=count_hist(len(st) for _, st in sessions))
     for r in prog_res:
         issues += r["issues"]
         for k, v in r["stats"].items():
@@ -805,7 +930,8 @@ def main(argv):
              "program level: %d router configurations (corpus, 256 exhaustive-small, random 0..4 methods x 0..5 bare actions x clear_state, hand-picked) compiled with Router.compile_program at versions 6..10 "
              "with/without OptimizeOptions and assemble_constants (a directed set mentioning every OnCompletion as bare action and as method entry is compiled with assembled constants at every version), AST skeleton vs model program, approval+clear TEAL executed on the extracted AVM for first-argument in registered selectors + unknown + 3-byte prefix + 5-byte extension + none, "
              "0..2 extra arguments, OnCompletion 0..5, ApplicationID 0/77 - compared with the model's dispatch (exact) and the independent oracle; "
-             "a case is distinct by (configuration, version, optimize) resp. tuple/table; non-trivial = something is registered" % (len(tables), len(items)),
+             "router sessions (%d): one Router compiled, extended by further methods, compiled again (same and other version/options), every compilation judged against all registrations made so far; "
+             "a case is distinct by (configuration, version, optimize) resp. tuple/table; non-trivial = something is registered" % (len(tables), len(items), len(sessions)),
         trusted_base=[
             "AVM semantics of txn/txna/method/==/!=/&&/||/assert/err/bnz/bz/b/callsub/retsub/proto/frame_dig/frame_bury/log/return/store/load/btoi/itob/extract/len/concat in coq/AVM (hand-written spec)",
             "Theorems are about Router/Dispatch.v (hand model of the Cond/Assert/Reject skeleton router.py builds); handlers are abstract: 'runs h' = wrap_handler's code then Approve() - "
